@@ -16,6 +16,7 @@ from ..core import Ctx, ExtractError
 
 ID = "C05"
 LEVEL = "proof"
+STRENGTH = "full"
 ENGINES = ["lean-model", "pyextract", "purediff", "kopfsim"]
 LEVEL_TEXT = ("Lean theorems (all inputs of the decision table, all handler kinds) about a model that is regenerated from the AST and re-proved equal on every run; the real _detect_causes and get_handlers are additionally enumerated exhaustively against the model and an independent oracle.")
 TIE = "T (AST → Lean, re-proved equal to the model) + D exhaustive over the decision table"
